@@ -1,6 +1,7 @@
 package main
 
 import (
+	"sync"
 	"bufio"
 	"encoding/json"
 	"flag"
@@ -248,6 +249,37 @@ func cmdCheck(args []string) int {
 	}
 	for range todo {
 		<-done
+	}
+	// second pass: an obligation that was not decided while competing with the others for
+	// the cores is tried again with few neighbours and three times the time; only what is
+	// still undecided then is reported (proof instability must not become an alarm)
+	var retry []*Obligation
+	for _, o := range todo {
+		if o.Kind != "vacuity" && (o.Status == "timeout" || o.Status == "unknown") {
+			retry = append(retry, o)
+		}
+	}
+	if len(retry) > 0 && len(retry) <= 40 {
+		secondPass = true
+		sem2 := make(chan struct{}, 3)
+		var wg sync.WaitGroup
+		for _, o := range retry {
+			o := o
+			wg.Add(1)
+			sem2 <- struct{}{}
+			go func() {
+				defer wg.Done()
+				defer func() { <-sem2 }()
+				first := o.Output
+				solve(oblCtx[o], o, qdir, timeout*3, *tier == "thorough")
+				if o.Status != "unsat" {
+					o.Output = first + "\nsecond pass: " + o.Output
+				} else {
+					o.Solver += " (second pass)"
+				}
+			}()
+		}
+		wg.Wait()
 	}
 	solveS := time.Since(solveStart).Seconds()
 
